@@ -50,6 +50,9 @@ def instances(tier):
     for g in (4, 5):
         for v in (["new", "old"] if g == 4 else ["std"]):
             out.append({"kind": "names", "gen": g, "acs": 1 if v == "old" else 2, "zpa": 2, "variant": v})
+    for g in (4, 5):
+        for how in ("twice", "slow_connect", "after_silence"):
+            out.append({"kind": "init_again", "gen": g, "how": how})
     out.append({"kind": "zero_zones", "gen": 5, "acs": 1})
     out.append({"kind": "zero_zones", "gen": 5, "acs": 2})
     out.append({"kind": "uneven", "gen": 5})
@@ -156,9 +159,51 @@ def _extra_frame(g, kind, inst, console, step):
     return None   # stale_duplicate is resolved at answer time
 
 
+def _init_again(ctx, p):
+    """init() called a second time without shutdown(): on an initialised object (at a free instant), after a first attempt
+    that timed out because the connect took longer than 5 s, or after one that failed because the console was silent at a
+    (solver-chosen) step and answers again now. The second call returns True and the model then follows the console."""
+    g = Gen(p["gen"])
+    how = p["how"]
+    inst = Installation.simple(g.n, n_acs=2, zones_per_ac=2)
+    t2 = ctx.real("t2", 6.5, 30)
+    step = STEPS[ctx.choice("silent_step", 6)] if how == "after_silence" else None
+    with ApiRig(ctx, g, inst) as rig:
+        con = rig.console
+        rig.net.on_connect = lambda net, n: ("accept", 6.0 if how == "slow_connect" else 0)
+        if step:
+            con.silent.add(step)
+        rig.start()
+        rig.run(6.25)
+        first = rig.init_result
+        ctx.check(first is (True if how == "twice" else False), "silent.returns_false_at_5s" if how != "twice" else "success.returns_true",
+                  detail={"how": how, "first": first})
+        con.silent.clear()
+        rig.init_result = None
+        rig.start(at=t2)
+        rig.run(t2 + 6.0)
+        detail = {"how": how, "silent_step": step, "second": rig.init_result, "requests": con.kinds()[-8:]}
+        ctx.observe("second", rig.init_result)
+        ctx.check(rig.init_result is True and rig.at.initialised, "success.returns_true", detail=detail)
+        _check_model(ctx, rig, inst, detail)
+        # the model follows the console afterwards: a changed AC status report is taken up
+        inst.ac_status[0] = (r4.build_ac_status(0, 0, 1, 3, 1, 1, 19, 600, 0) if g.n == 4 else r5.build_ac_status(0, 0, 1, 3, 90, 0, 0, 1, 1, 600, 0))
+        con.push(con.ac_status_frame(pid=0x66, only=[0]))
+        rig.run(t2 + 8.0)
+        a0 = rig.ac(0)
+        ok = a0 is not None and a0.power_state.name == "OFF" and a0.target_temperature == 19
+        ctx.check(ok, "success.model", detail=dict(detail, why="a status report after the second init() is not taken up",
+                                                   power=getattr(getattr(a0, "power_state", None), "name", None), target=str(getattr(a0, "target_temperature", None))))
+        ctx.check(not rig.task_failures(), "no_exception", detail=dict(detail, errors=[str(e.get("exception")) for e in rig.task_failures()][:3]))
+    for lab in expect_labels("quick"):
+        ctx.reach(lab)
+
+
 def run(ctx, p):
     g = Gen(p["gen"])
     kind = p["kind"]
+    if kind == "init_again":
+        return _init_again(ctx, p)
     if kind == "zero_zones":
         inst = Installation(5)
         for a in range(p["acs"]):
